@@ -13,6 +13,7 @@ import (
 	"github.com/ethereum/go-ethereum/core"
 	"github.com/ethereum/go-ethereum/core/rawdb"
 	"github.com/ethereum/go-ethereum/core/types"
+	"github.com/ethereum/go-ethereum/crypto"
 	"github.com/ethereum/go-ethereum/ethdb"
 	"github.com/ethereum/go-ethereum/rlp"
 	"github.com/ethereum/go-ethereum/trie"
@@ -43,6 +44,9 @@ type Built struct {
 	Chain    *core.BlockChain
 	Txs      [][]*TxInfo    // materialised plans per block, in block order
 	Skipped  map[string]int // skip reason -> count
+	// Created maps every included contract-creation plan to the address its
+	// transaction created (CreateAddress(sender, nonce)), whether or not it succeeded.
+	Created map[*TxPlan]common.Address
 }
 
 // Close stops the chain.
@@ -83,7 +87,7 @@ func (w *World) Build(opt BuildOptions) (built *Built, err error) {
 		cfg.SnapshotLimit = 0
 	}
 	engine := Engine(w.Variant)
-	b := &Built{World: w, Engine: engine, Skipped: map[string]int{}}
+	b := &Built{World: w, Engine: engine, Skipped: map[string]int{}, Created: map[*TxPlan]common.Address{}}
 	chain, cerr := core.NewBlockChain(rawdb.NewMemoryDatabase(), w.Genesis, engine, cfg)
 	if cerr != nil {
 		return nil, fmt.Errorf("new blockchain: %w", cerr)
@@ -132,10 +136,29 @@ func (w *World) Build(opt BuildOptions) (built *Built, err error) {
 			g.AddUncle(&types.Header{ParentHash: g.PrevBlock(i - 2).Hash(), Number: big.NewInt(int64(i)), Coinbase: bp.Uncle.Coinbase})
 		}
 		for _, p := range bp.Txs {
-			info, skip := Materialize(p, env)
+			q := p
+			if p.RefCreate != nil { // resolve the reference to an earlier creation (opt-in arrangements only)
+				addr, ok := b.Created[p.RefCreate]
+				if !ok {
+					b.Skipped["ref-not-created"]++
+					continue
+				}
+				cp := *p
+				if p.RefData {
+					cp.Data = common.LeftPadBytes(addr[:], 32)
+				} else {
+					cp.To = &addr
+				}
+				q = &cp
+			}
+			info, skip := Materialize(q, env)
 			if skip != "" {
 				b.Skipped[skip]++
 				continue
+			}
+			info.Plan = p
+			if info.Tx.To() == nil {
+				b.Created[p] = crypto.CreateAddress(info.From, info.Tx.Nonce())
 			}
 			g.AddTxWithChain(chain, info.Tx)
 			env.GasLeft -= info.Tx.Gas()
